@@ -315,4 +315,49 @@ theorem nextDeadline_insert_le (w : Wheel) (d : Int) (t : Verif.Token.Tok) :
       have := hmin e (by simp [Verif.Wheel.insert, he])
       omega
 
+/-! ### conservation: a poll neither duplicates nor loses an arming -/
+
+theorem perm_getElem_eraseIdx {α} (l : List α) (i : Nat) (h : i < l.length) : (l[i] :: l.eraseIdx i).Perm l := by
+  induction l generalizing i with
+  | nil => cases h
+  | cons a t ih =>
+    cases i with
+    | zero => exact List.Perm.refl _
+    | succ j =>
+      have hj : j < t.length := by simpa using h
+      simp only [List.getElem_cons_succ, List.eraseIdx_cons_succ]
+      exact (List.Perm.swap a t[j] _).trans ((ih j hj).cons a)
+
+theorem nextExpired_perm (w : Wheel) (now : Int) (e : Entry) (w' : Wheel) (h : nextExpired w now = some (e, w')) :
+    (e :: w'.heap).Perm w.heap := by
+  unfold nextExpired at h
+  cases hm : minIdx w.heap with
+  | none => simp [hm] at h
+  | some i =>
+    simp only [hm] at h
+    cases hg : w.heap[i]? with
+    | none => simp [hg] at h
+    | some x =>
+      simp only [hg] at h
+      split at h
+      · injection h with h; injection h with h1 h2; subst h1; subst h2
+        obtain ⟨hi, hx⟩ := List.getElem?_eq_some_iff.mp hg
+        subst hx
+        exact perm_getElem_eraseIdx _ _ hi
+      · cases h
+
+/-- what a poll pops together with what it leaves is exactly what was in the heap -/
+theorem popExpired_perm (w : Wheel) (now : Int) (fuel : Nat) :
+    ((popExpired w now fuel).1 ++ (popExpired w now fuel).2.heap).Perm w.heap := by
+  induction fuel generalizing w with
+  | zero => exact List.Perm.refl _
+  | succ n ih =>
+    unfold popExpired
+    cases hn : nextExpired w now with
+    | none => exact List.Perm.refl _
+    | some p =>
+      obtain ⟨e, w'⟩ := p
+      simp only [List.cons_append]
+      exact ((ih w').cons e).trans (nextExpired_perm w now e w' hn)
+
 end Verif.Inv.Wheel
